@@ -178,6 +178,14 @@ fn main() {
     let log: Log = Arc::new(Mutex::new(Vec::new()));
     let rp = sc["request"]["rp_id"].as_str().unwrap_or("example.com").to_string();
 
+    if sc["op"] == "rp_id_valid" {
+        // is this name accepted as an RP ID under the shipped public suffix list?
+        let v = passkey_client::RpIdVerifier::new(public_suffix::DEFAULT_PROVIDER);
+        let names: Vec<String> = sc["names"].as_array().map(|a| a.iter().filter_map(|x| x.as_str().map(String::from)).collect()).unwrap_or_default();
+        let accepted: Vec<String> = names.into_iter().filter(|n| v.is_valid_rp_id(n)).collect();
+        println!("E2REPLAY {}", json!({"result": {"accepted": accepted}, "log": []}));
+        return;
+    }
     if sc["op"] == "authdata_from_slice" {
         let n = sc["len"].as_u64().unwrap_or(0) as usize;
         let mut buf = vec![0u8; n];
